@@ -168,6 +168,39 @@ struct S4 : FSM4::State {
 	void update(FullControl& c) { const unsigned r = c.context()->rng->below(5); if (r == 0) c.fail(); else if (r < 4) c.succeed(); }
 };
 struct Q0 : S4<0> {}; struct Q1 : S4<1> {}; struct Q2 : S4<2> {};
+
+// manual activation + plans: re-activation, reports with and without tasks, plan edits from callbacks
+typedef ffsm2::MachineT<ffsm2::Config::ContextT<Ctx*>::ManualActivation::SubstitutionLimitN<2> > M5;
+struct H5; struct R0; struct R1; struct R2; struct R3;
+typedef M5::Root<H5, R0, R1, R2, R3> FSM5;
+struct H5 : FSM5::State {
+	void enter(PlanControl& c) { c.context()->trace->add("5he", 0, 0, 0); }
+	void exit(PlanControl& c) { c.context()->trace->add("5hx", 0, 0, 0); }
+	void planSucceeded(FullControl& c) { c.context()->trace->add("5ps", c.stateId(), 0, 0); if (c.context()->rng->below(3) == 0) { const ffsm2::StateID o = static_cast<ffsm2::StateID>(c.context()->rng->below(4)); const ffsm2::StateID d = static_cast<ffsm2::StateID>(c.context()->rng->below(4)); c.plan().change(o, d); } }
+	void planFailed(FullControl& c) { c.context()->trace->add("5pf", c.stateId(), 0, 0); }
+};
+template <unsigned ID>
+struct S5 : FSM5::State {
+	void entryGuard(GuardControl& c) { Ctx& x = *c.context(); x.trace->add("5eg", ID, c.pendingTransition().destination, c.pendingTransition().origin); if (x.rng->below(9) == 0) c.cancelPendingTransition(); }
+	void enter(PlanControl& c) {
+		Ctx& x = *c.context();
+		x.trace->add("5en", ID, c.currentTransition().destination, c.currentTransition().origin);
+		if (x.rng->below(5) == 0) c.plan().change(static_cast<ffsm2::StateID>(ID), static_cast<ffsm2::StateID>(x.rng->below(4)));
+	}
+	void reenter(PlanControl& c) { c.context()->trace->add("5re", ID, 0, 0); }
+	void update(FullControl& c) {
+		Ctx& x = *c.context();
+		x.trace->add("5up", ID, c.stateId(), 0);
+		const unsigned r = x.rng->below(10);
+		if (r < 3) c.succeed();
+		else if (r == 3) c.fail();
+		else if (r == 4) { const ffsm2::StateID o = static_cast<ffsm2::StateID>(x.rng->below(4)); const ffsm2::StateID d = static_cast<ffsm2::StateID>(x.rng->below(4)); c.plan().change(o, d); }
+		else if (r == 5) c.changeTo(static_cast<ffsm2::StateID>(x.rng->below(4)));
+		else if (r == 6) { unsigned n = 0; for (auto it = c.plan().begin(); it; ++it, ++n) if (n == 1) it.remove(); }
+	}
+	void exit(PlanControl& c) { c.context()->trace->add("5ex", ID, 0, 0); }
+};
+struct R0 : S5<0> {}; struct R1 : S5<1> {}; struct R2 : S5<2> {}; struct R3 : S5<3> {};
 #endif
 
 #ifdef SCN_USE_LOG
@@ -280,6 +313,28 @@ int main(int argc, char** argv) {
 			for (unsigned step = 0; step < 3; ++step) { m.update(); trace.add("4ob", m.activeStateId(), static_cast<bool>(static_cast<const FSM4::Instance&>(m).plan()) ? 1 : 0, 0); }
 		}
 	}
+	{
+		Ctx ctx = { &trace, &cbRng, 5 };
+		FSM5::Instance m(&ctx);
+		for (unsigned step = 0; step < 3000; ++step) {
+			const unsigned op = drv.below(16);
+			if (!m.isActive()) { if (op < 6) { m.enter(); trace.add("5on", m.activeStateId(), 0, 0); } continue; }
+			if (op < 6) m.update();
+			else if (op == 6) { Event e = { drv.below(100) }; m.react(e); }
+			else if (op == 7) m.changeTo(static_cast<ffsm2::StateID>(drv.below(4)));
+			else if (op == 8) m.immediateChangeTo(static_cast<ffsm2::StateID>(drv.below(4)));
+			else if (op == 9) { const ffsm2::StateID o = static_cast<ffsm2::StateID>(drv.below(4)); const ffsm2::StateID d = static_cast<ffsm2::StateID>(drv.below(4)); trace.add("5pl", o, d, m.plan().change(o, d) ? 1 : 0); }
+			else if (op == 10) m.succeed(drv.below(2) ? m.activeStateId() : static_cast<ffsm2::StateID>(drv.below(4)));
+			else if (op == 11) m.fail(drv.below(2) ? m.activeStateId() : static_cast<ffsm2::StateID>(drv.below(4)));
+			else if (op == 12) { if (drv.below(3) == 0) m.plan().clear(); }
+			else if (op == 13) { if (drv.below(2) == 0) { m.exit(); trace.add("5of", 0, 0, 0); } }
+			else m.update();
+			unsigned n = 0;
+			for (FSM5::Instance::CPlan::Iterator it(static_cast<const FSM5::Instance&>(m).plan()); it; ++it) { trace.add("5tk", it->origin, it->destination, n); ++n; }
+			trace.add("5ob", m.isActive() ? m.activeStateId() : 254, n, 0);
+		}
+		if (m.isActive()) m.exit();
+	}
 #endif
 #ifdef SCN_USE_SERIALIZATION
 	{
@@ -313,21 +368,33 @@ int main(int argc, char** argv) {
 	{
 		Ctx ctx = { &trace, &cbRng, 7 };
 		FSM2::Instance m(&ctx), replica(&ctx);
-		m.enter();
-		replica.replayEnter(m.previousTransition() ? m.previousTransition().destination : static_cast<ffsm2::StateID>(0));
-		for (unsigned step = 0; step < 400; ++step) {
-			const unsigned op = drv.below(4);
-			if (op == 0) m.update();
-			else if (op == 1) m.changeTo(static_cast<ffsm2::StateID>(drv.below(3)));
-			else if (op == 2) { const ffsm2::StateID d = static_cast<ffsm2::StateID>(drv.below(3)); const Pay p = mkPay(drv.below(200)); m.immediateChangeWith(d, p); }
-			else { Event e = { 3 }; m.react(e); }
-			const FSM2::Transition& pt = m.previousTransition();
-			trace.add("7pt", pt ? pt.destination : 254, pt.origin, payOf(pt));
-			if (op != 1 && pt) replica.replayTransition(pt.destination);
-			trace.add("7rp", m.activeStateId(), replica.activeStateId(), 0);
+		for (unsigned round = 0; round < 12; ++round) {
+			// the authority and its replica are re-activated again and again
+			m.enter();
+			{
+				const FSM2::Transition& first = m.previousTransition();
+				trace.add("7on", first ? first.destination : 254, m.activeStateId(), 0);
+				replica.replayEnter(m.activeStateId());
+				trace.add("7rp", m.activeStateId(), replica.isActive() ? replica.activeStateId() : 254, 1);
+			}
+			const unsigned steps = 10 + drv.below(60);
+			for (unsigned step = 0; step < steps; ++step) {
+				const unsigned op = drv.below(4);
+				if (op == 0) m.update();
+				else if (op == 1) m.changeTo(static_cast<ffsm2::StateID>(drv.below(3)));
+				else if (op == 2) { const ffsm2::StateID d = static_cast<ffsm2::StateID>(drv.below(3)); const Pay p = mkPay(drv.below(200)); m.immediateChangeWith(d, p); }
+				else { Event e = { 3 }; m.react(e); }
+				const FSM2::Transition& pt = m.previousTransition();
+				trace.add("7pt", pt ? pt.destination : 254, pt.origin, payOf(pt));
+				if (op != 1 && pt) replica.replayTransition(pt.destination);
+				trace.add("7rp", m.activeStateId(), replica.activeStateId(), 0);
+				const FSM2::Transition& rt = replica.previousTransition();
+				trace.add("7rt", rt ? rt.destination : 254, rt.origin, 0);
+			}
+			replica.exit();
+			m.exit();
+			trace.add("7of", m.previousTransition() ? 1 : 0, replica.previousTransition() ? 1 : 0, 0);
 		}
-		replica.exit();
-		m.exit();
 	}
 #endif
 #ifdef SCN_USE_LOG
